@@ -322,11 +322,11 @@ fn c10(cx: &RunCtx) -> Verdict {
         }
     }
     let hv: Vec<M> = harvested.into_iter().collect();
-    let acts = [0u8, 1, 2, 3];
     let mut hp = 0u64;
     for x in hv.iter().take(400) {
         for y in hv.iter().take(400) {
             hp += 1;
+            let acts: Vec<u8> = x.keys().chain(y.keys()).cloned().collect::<BTreeSet<u8>>().into_iter().collect();
             if let Some(e) = c10_pair(x, y, &acts) {
                 if viol.len() < 5 {
                     viol.push(finding("vclock", "VC", e, cx.seed));
